@@ -584,6 +584,19 @@ def compare(I, fr, op, l, r, node):
 def _slice_len(dim, sl):
     """length of dim[lower:upper:step] when derivable (assumes bounds within the array)."""
     lo, up, stp = sl.items
+    if stp is not None and stp.has_const() and stp.const == -1 and dim is not None:
+        # x[a:b:-1] walks from position a down to b + 1 (defaults: a = last, b = before the first): a - b elements, bounds assumed valid
+        def rpos(b, default):
+            if b is None or b.kind == K_NONE:
+                return default
+            if b.sym is None:
+                return None
+            if b.sym.is_const() and b.sym.c < 0:
+                return dim + b.sym
+            return b.sym
+        a_ = rpos(lo, dim - 1)
+        b_ = rpos(up, LinExpr(-1))
+        return (a_ - b_) if (a_ is not None and b_ is not None) else None
     if stp is not None and not (stp.has_const() and stp.const in (1, None)):
         return None
     if lo is None and up is None:
@@ -626,7 +639,10 @@ def subscript(I, fr, base, idx, node, quiet=False):
         if e is None:
             return top_av(True, "element of unknown sequence", I.atoms).replace(tags=base.tags | idx.tags)
         out = weaken_av(e, {at: idx.a(at) for at in idx.atoms()})
-        return out.replace(tags=out.tags | base.tags | idx.tags)
+        extra = frozenset()
+        if base.note in ("text-lines", "text-tokens") and k is not None and k >= 0:
+            extra = frozenset([("line#%d" if base.note == "text-lines" else "token#%d") % k])
+        return out.replace(tags=out.tags | base.tags | idx.tags | extra)
     if base.kind == K_DICT:
         if idx.has_const() and base.dvals is not None and idx.const in base.dvals:
             return base.dvals[idx.const]
@@ -693,6 +709,8 @@ def subscript(I, fr, base, idx, node, quiet=False):
                     out.append(LinExpr(fresh_atom("$m")))
                     if ax in b.mono:
                         mono_map[ax] = len(out) - 1
+                    if len(comps) == 1:
+                        tags = tags | frozenset(["subsequence", "mask-select"])     # x[mask]: elements of x, in order, some left out
                     # a boolean mask consumes as many axes as its rank
                     ax += (len(ci.shape) - 1) if ci.shape else 0
                 elif ci.shape is not None:
@@ -1237,7 +1255,9 @@ def call_method(I, fr, name, base, args, kwargs, node):
             return top_av(False, "dict." + name, ()) if name in ("pop", "setdefault") else const_av(None)
     if base.kind == K_STR:
         if name in ("split", "splitlines", "rsplit"):
-            return AV(kind=K_LIST, elem=AV(kind=K_STR, tags=base.tags), origin=fresh_tok(I, fr, node), tags=base.tags)
+            # text provenance: which line of the text, which whitespace-separated token of the line (see subscript of these lists)
+            return AV(kind=K_LIST, elem=AV(kind=K_STR, tags=base.tags), origin=fresh_tok(I, fr, node), tags=base.tags,
+                      note="text-lines" if name == "splitlines" else ("text-tokens" if not args and not kwargs else None))
         if name in ("startswith", "endswith", "isdigit"):
             return AV(kind=K_BOOL, dtype="bool", shape=())
         return AV(kind=K_STR, tags=base.tags | tags_of(*args))
@@ -1276,7 +1296,7 @@ def call_method(I, fr, name, base, args, kwargs, node):
         if name in ("read", "readline"):
             return AV(kind=K_STR, tags=frozenset(["file-text"]))
         if name == "readlines":
-            return AV(kind=K_LIST, elem=AV(kind=K_STR, tags=frozenset(["file-text"])), origin=fresh_tok(I, fr, node))
+            return AV(kind=K_LIST, elem=AV(kind=K_STR, tags=frozenset(["file-text"])), origin=fresh_tok(I, fr, node), note="text-lines")
         if name == "write":
             I.emit("io", fr, node, what="write", args=args)
         return const_av(None)
@@ -1479,7 +1499,7 @@ def _zeros(C):
     if alg and sign == S_ZERO:
         sign = S_ZERO
     return AV(kind=K_ARRAY, dtype=dt, shape=shape, alg=alg, sign=sign, origin=C.fresh(),
-              tags=tags_of(*[a for a in C.args]), f0=(short == "zeros"),
+              tags=tags_of(*[a for a in C.args]) | frozenset(["alloc:" + short]), f0=(short == "zeros"),
               mono=axes_all(shape) if short in ("zeros", "ones") else frozenset(),
               note=("init", None, frozenset()) if short in ("ones", "empty", "full") else None)
 
@@ -1493,7 +1513,7 @@ def _zeros_like(C):
     sign = {"zeros_like": S_ZERO, "ones_like": S_POS}.get(short, S_ANY)
     alg = {at: alg_shape(v.a(at)) for at in v.atoms()}
     alg = {at: alg_weaken(CONST, c) for at, c in alg.items() if c[0] not in ("const", "zero")}
-    return AV(kind=K_ARRAY, dtype=dt, shape=v.shape, alg=alg, sign=sign, origin=C.fresh(), tags=v.tags,
+    return AV(kind=K_ARRAY, dtype=dt, shape=v.shape, alg=alg, sign=sign, origin=C.fresh(), tags=v.tags | frozenset(["alloc:" + short.replace("_like", "")]),
               indef=v.indef, f0=(short == "zeros_like"),
               mono=axes_all(v.shape) if short in ("zeros_like", "ones_like") else frozenset(),
               note=("init", None, frozenset()) if short in ("ones_like", "empty_like", "full_like") else None)
